@@ -214,6 +214,23 @@ def handle (op : String) (args : List String) : Option String :=
       pure ks.reverse) keys
     pure (boolStr (keysSeparable outs ks) ++ "\t" ++
       ",".intercalate (ks.map fun k => strHex (renderPath (joinKey outs k)) ++ ":" ++ boolStr (legalName k)))
+  | "wcut", [w, old, new, k] => do
+    -- a record write cut after `k` units of progress: `a` = writeAtomicAt (temp file, rename),
+    -- `i` = os.WriteFile in place; old = `N` (no record yet) | `S<hex>`; reply: record and `.tmp` sibling
+    let w ← (match w with | "a" => some RecordWriter.atomic | "i" => some RecordWriter.inplace | _ => none)
+    let dec : String → Option (Option (List UInt8)) := fun t =>
+      if t == "N" then some none
+      else if t.startsWith "S" then (bytesOfHex (t.drop 1).toString).map some
+      else none
+    let old ← dec old
+    let new ← bytesOfHex new
+    let k ← k.toNat?
+    let target : Path := ["d", "_outs"]
+    let fs : BFS := fun q => if q = target then old else none
+    let fs' := writeCut w fs target new k
+    let enc : Option (List UInt8) → String := fun o =>
+      match o with | none => "N" | some b => "S" ++ hexOfBytes b
+    pure (enc (fs' target) ++ "\t" ++ enc (fs' (tmpPath target)))
   | "dimaware", [] => pure (boolStr Gen.postProcessDimAware)
   | "nodup", [members] => do
     -- the compile-time duplicate-output-name check on one member list
